@@ -83,13 +83,38 @@ Theorem C13_revoke_perm_next : forall s who r w ts id k s' t,
 Proof. exact revoke_perm_reachable. Qed.
 Print Assumptions C13_revoke_perm_next.
 
-(** The reserved id passes validation: an admin can create the user "bypass". *)
-Theorem C13_reserved_id_creatable : forall s key fk roles,
-  alookup auth_bypass_id (st_users s) = None -> blen key <= auth_max_key_len ->
-  exists s', create_user s auth_bypass_id (Some key) fk roles = (None, s') /\
-             exists u, alookup auth_bypass_id (st_users s') = Some u /\ u_active u = true /\ u_roles u = roles.
-Proof. exact reserved_id_creatable. Qed.
-Print Assumptions C13_reserved_id_creatable.
+(** Repaired by 139a8cf (was: the reserved id "bypass" could be created and then skipped every
+    handler check).  The reserved ids are refused by [create_user], no reachable state holds an
+    account under one of them, and with authentication on no gate attributes a request to one. *)
+Theorem C13_reserved_id_rejected : forall s id key fk roles,
+  is_reserved_id id = true -> create_user s id key fk roles = (Some EInvalidId, s).
+Proof. exact reserved_id_rejected. Qed.
+Print Assumptions C13_reserved_id_rejected.
+
+Theorem C13_no_reserved_account : forall s, reachable s ->
+  forall id, is_reserved_id id = true -> alookup id (st_users s) = None.
+Proof. exact reachable_no_reserved. Qed.
+Print Assumptions C13_no_reserved_account.
+
+Theorem C13_gate_never_reserved : forall hmac cfg s conn line now tok,
+  reachable s -> auth_on cfg ->
+  match fst (fst (gate_tcp hmac cfg s conn line now tok)) with
+  | GDispatch _ u => is_reserved_id u = false
+  | GAuthOk u => is_reserved_id u = false
+  | GReject => True
+  end.
+Proof. exact gate_never_reserved. Qed.
+Print Assumptions C13_gate_never_reserved.
+
+Theorem C13_gate_unix_never_reserved : forall hmac cfg s line text uid,
+  reachable s -> auth_on cfg -> gate_unix hmac cfg s line = GDispatch text uid -> is_reserved_id uid = false.
+Proof. exact gate_unix_never_reserved. Qed.
+Print Assumptions C13_gate_unix_never_reserved.
+
+Theorem C13_gate_http_never_reserved : forall hmac cfg s hdr body text uid,
+  reachable s -> auth_on cfg -> gate_http hmac cfg s hdr body = GDispatch text uid -> is_reserved_id uid = false.
+Proof. exact gate_http_never_reserved. Qed.
+Print Assumptions C13_gate_http_never_reserved.
 
 (** REPLAY / SHOW / REMEMBER / comparison / FLUSH are executed identically for every caller. *)
 Theorem C13_no_identity_commands : forall s who who' c k,
@@ -97,32 +122,50 @@ Theorem C13_no_identity_commands : forall s who who' c k,
 Proof. exact no_identity_commands. Qed.
 Print Assumptions C13_no_identity_commands.
 
-(** The property as stated ([authorized_only]: whatever is executed satisfies the declarative
-    policy) is FALSE of the model, with one witness per known class. *)
+(** The property as stated ([authorized_only]: whatever is executed for an identity a gate can
+    produce satisfies the declarative policy) is still FALSE of the model, with one witness per
+    remaining known class (the class ReservedUserId is repaired and gone). *)
 Theorem C13_authorized_only_refuted :
   ~ authorized_only /\
-  (exists s who c k s', reachable s /\ dispatch s who c k = (OExec, s') /\ ReservedUserId who c = true /\ ~ policy s who c) /\
-  (exists s who c k s', reachable s /\ dispatch s who c k = (OExec, s') /\ UncheckedReadCommand c = true /\ ~ policy s who c) /\
-  (exists s who c k s', reachable s /\ dispatch s who c k = (OExec, s') /\ FlushNoRole c = true /\ ~ policy s who c) /\
-  (exists s who c k s', reachable s /\ dispatch s who c k = (OExec, s') /\ SequenceTailUnchecked c = true /\ ~ policy s who c).
+  (exists s who c k s', reachable s /\ who <> Some auth_bypass_id /\ dispatch s who c k = (OExec, s') /\ UncheckedReadCommand c = true /\ ~ policy s who c) /\
+  (exists s who c k s', reachable s /\ who <> Some auth_bypass_id /\ dispatch s who c k = (OExec, s') /\ FlushNoRole c = true /\ ~ policy s who c) /\
+  (exists s who c k s', reachable s /\ who <> Some auth_bypass_id /\ dispatch s who c k = (OExec, s') /\ SequenceTailUnchecked c = true /\ ~ policy s who c).
 Proof. exact authorized_only_refuted. Qed.
 Print Assumptions C13_authorized_only_refuted.
 
-(** Outside the four known classes the property holds, in every reachable state. *)
+(** Outside the three remaining classes (which depend on the command kind only) the property
+    holds in every reachable state, for every identity other than the bypass-mode identity. *)
 Theorem C13_outside_known : forall s who c k s',
-  reachable s -> KnownClass who c = false -> dispatch s who c k = (OExec, s') -> policy s who c.
+  reachable s -> who <> Some auth_bypass_id -> KnownClass c = false ->
+  dispatch s who c k = (OExec, s') -> policy s who c.
 Proof. exact outside_known_reachable. Qed.
 Print Assumptions C13_outside_known.
 
-(** End to end over TCP: an executed command came with a credential of the executing user and,
-    outside the known classes, that user was entitled to it. *)
+(** End to end, for every user id whatsoever: an executed command came with a credential of the
+    executing user, that user is not a reserved id, and outside the known classes was entitled to
+    the command.  (Before 139a8cf this needed the exclusion "uid is not bypass".) *)
 Theorem C13_served_outside_known : forall hmac parse cfg s conn line now tok key c uid conn' s',
   reachable s -> auth_on cfg ->
   serve_tcp hmac parse cfg s conn line now tok key = (SOut c uid OExec, conn', s') ->
   exists text, credential hmac s conn now line text uid /\ parse text = Some c /\
-               (KnownClass (Some uid) c = false -> policy s (Some uid) c).
-Proof. exact served_reachable. Qed.
+               is_reserved_id uid = false /\
+               (KnownClass c = false -> policy s (Some uid) c).
+Proof. exact served_outside_known. Qed.
 Print Assumptions C13_served_outside_known.
+
+Theorem C13_served_unix_outside_known : forall hmac parse cfg s line key c uid s',
+  reachable s -> auth_on cfg ->
+  serve_unix hmac parse cfg s line key = (SOut c uid OExec, s') ->
+  is_reserved_id uid = false /\ (KnownClass c = false -> policy s (Some uid) c).
+Proof. exact served_unix_outside_known. Qed.
+Print Assumptions C13_served_unix_outside_known.
+
+Theorem C13_served_http_outside_known : forall hmac parse cfg s hdr body key c uid s',
+  reachable s -> auth_on cfg ->
+  serve_http hmac parse cfg s hdr body key = (SOut c uid OExec, s') ->
+  is_reserved_id uid = false /\ (KnownClass c = false -> policy s (Some uid) c).
+Proof. exact served_http_outside_known. Qed.
+Print Assumptions C13_served_http_outside_known.
 
 (** A GRANT (REVOKE) naming several event types is the sequence of the single-type GRANTs
     (REVOKEs): each step reads the permissions the previous ones left and the loop stops at the
